@@ -191,6 +191,8 @@ func (df *DataFrame) DropDuplicates(options ...DropDuplicatesOption) (*DataFrame
 			}
 		}
 
+	default:
+		return nil, fmt.Errorf("invalid Keep option: %s (must be 'first', 'last', or 'none')", finalOptions.Keep)
 	}
 
 	for _, colName := range df.ColumnNames() {
